@@ -118,7 +118,8 @@ let rec parse_op (s : string) : op =
   | ["wrc"; a; b'; m; f] -> OWithReplCh (num a, num b', num m, num f)
   | ["wrs"; a; b'; m; f] -> OWithReplS (sarg a, sarg b', num m, num f)
   | ["args"; a] -> OArgS (sarg a)
-  | ["argi"; z] -> OArgInt (z_of_int (int_of_string z))
+  | ["argi"; z] | ["argl"; z] | ["argu"; z] | ["argh"; z] | ["argc"; z] | ["argul"; z] -> OArgInt (z_of_int (int_of_string z))
+  | ["argb"; x] -> OArgS (ALit (List.map n_of_int (if b x then [116;114;117;101] else [102;97;108;115;101])))
   | ["wsf"; a] -> OWithSuffixS (sarg a)
   | ["wpf"; a] -> OWithPrefixS (sarg a)
   | ["wosf"; a; m] -> OWithoutSuffixS (sarg a, num m)
